@@ -9,6 +9,9 @@ V: every session's event log (recv n / timeout / eof / request handed to process
    validated by TLC (ServerTrace): processing only after the frame's last octet, exactly 24+length octets per frame,
    replies as the spec computes them, close only when nothing complete is unanswered, final tag memory as the spec's,
    and a following connection still served.
+L: below the receive seam: the same server over a real loopback TCP connection (cpppo.server.network.recv itself runs): streams of
+   answered frames adding up to 4094 / 4096 / 4098 / 8192 octets (the receive buffer size and its neighbours) in one write or
+   cut at the buffer size; every reply must arrive while the connection is open, and the log is validated by ServerTrace too.
 """
 import json
 import random
@@ -46,6 +49,28 @@ def schedules(scj, rng, quick, full):
             sizes = sizes[:cut]
         out.append(sizes)
     return out
+
+
+def _fill(singles, total, rng):
+    """a random sequence of single-frame scenarios whose frame lengths add up to exactly `total' (None if there is none)"""
+    lens = sorted(set(len(x["fb"][0]) for x in singles))
+    ok = [False] * (total + 1)
+    ok[0] = True
+    for t in range(1, total + 1):
+        ok[t] = any(l <= t and ok[t - l] for l in lens)
+    if not ok[total]:
+        return None
+    byl = {}
+    for x in singles:
+        byl.setdefault(len(x["fb"][0]), []).append(x)
+    out, left = [], total
+    while left:
+        l = rng.choice([l for l in lens if l <= left and ok[left - l]])
+        out.append(rng.choice(byl[l]))
+        left -= l
+    reg = [x for x in out if x["sc"]["frames"][0]["kind"] == "register"]
+    rest = [x for x in out if x["sc"]["frames"][0]["kind"] != "register"]
+    return reg[:1] + rest + reg[1:] if reg else out
 
 
 def main(ctx):
@@ -91,6 +116,39 @@ def main(ctx):
     bad = serverlib.validate(ctx, lines, "C02")
     serverlib.report(ctx, bad, "C02")
     ev.extra["sessions"] = len(lines)
+    # below the receive seam: the same server over a REAL loopback TCP connection, cpppo.server.network.recv itself included.
+    # Streams of answered frames whose total length sits at / next to a multiple of the receive buffer size (4096), delivered in one
+    # write or cut at the buffer size: every request must be answered while the connection is still open (C02: acted upon as soon
+    # as its last octet has been delivered), and the log must be a behaviour of Server.tla like any other.
+    answered = [x for x in scs1 if x["sc"]["frames"][0]["kind"] in ("register", "listservices", "listidentity", "listinterfaces") or
+                (x["sc"]["frames"][0]["kind"] == "rr" and x["sc"]["frames"][0]["req"]["tag"] != 0 and x["sc"]["frames"][0]["req"]["svc"] != "multi")]
+    ljobs = []
+    for total in ((4094, 4096, 4098, 8192) if ctx.quick else (4092, 4094, 4096, 4098, 4100, 8190, 8192, 8194, 12288, 16384)):
+        for rep in range(2 if ctx.quick else 6):
+            fs = _fill(answered, total, rng)
+            if fs is None:
+                continue
+            ends, at = [], 0
+            for f in fs:
+                at += len(f["fb"][0])
+                ends.append(at)
+            sc = {"sc": dict(fs[0]["sc"], frames=[f["sc"]["frames"][0] for f in fs]), "fb": [f["fb"][0] for f in fs], "ends": ends}
+            ljobs.append((sc, [total], len(fs)))
+            if total > 4096 and rep == 0:
+                ljobs.append((sc, [4096, total - 4096], len(fs)))
+    if not ljobs:
+        ctx.machinery.append("no stream of answered frames adds up to a multiple of the receive buffer size")
+    llines = [serverlib.exec_live(j) for j in ljobs]            # (real sockets and wall-clock waits: one at a time)
+    for j, ln in zip(ljobs, llines):
+        ev.case(key=("live", json.dumps(j[0]["fb"])[:2000], json.dumps(j[1])), nontrivial=True)
+        if not ln["prompt"] or not ln["finished"]:
+            ctx.violation("live_not_answered_when_complete", {"live": True, "sizes": ln["sizes"], "frames": len(j[0]["fb"]), "received": ln["received"],
+                                                               "events": [{k: (v if k != "b" else len(v)) for k, v in e.items()} for e in ln["ev"]][:60]},
+                          what="real TCP connection: %d frames (%d octets) delivered as %s: %d of %d replies had arrived after %.1f s with the connection open%s" % (
+                              len(j[0]["fb"]), j[0]["ends"][-1], ln["sizes"], ln["received"], ln["expect"], ln["took"], "" if ln["finished"] else "; the server did not end the session"))
+    bad = serverlib.validate(ctx, [ln for ln in llines if ln["prompt"] and ln["finished"]], "C02live")
+    serverlib.report(ctx, bad, "C02")
+    ev.extra["live_sessions"] = len(llines)
     # client side of the framing: the reply streams the server produced, re-chunked into the real client.__next__
     import os
     import tempfile
